@@ -107,6 +107,11 @@ extern "C" int h_c17() {
       std::string pn("P"); pn += char('0' + i % 5);
       Param p(pn, std::string(250, 'x')); p.set(std::vector<int>() = {i}); c.parameter(g, p);
     }
+  } else if (kind == 10) {    // v groups in total (a fresh object has 3): group ids are signed bytes, a group record carries -id and its parameters +id
+    for (int i = 3; i < v; ++i) {
+      std::string g("G"); g += char('A' + i / 26 % 26); g += char('A' + i % 26);
+      Param p("V", "g"); p.set(std::vector<int>() = {(int)(short)__vp_sym_u16("iv")}); c.parameter(g, p);
+    }
   }
   dump_all(c, "pre", false);
   int wrote = 0, loaded = 0;
